@@ -511,7 +511,11 @@ func (w *World) PreMine(t *Tape, n int, payEvery int) {
 	for i := 0; i < n; i++ {
 		tip := w.Node.Tip()
 		var b *BlockRec
-		if payEvery > 0 && i%payEvery == payEvery-1 {
+		// wallet payments at a steady pace and, on purpose, in the blocks around
+		// every multiple of 1000 (the rescan works in batches of that size)
+		h := int(tip.Height) + 1
+		edge := h > 900 && (h%1000 <= 3 || h%1000 >= 998 || h%1001 <= 1)
+		if payEvery > 0 && (i%payEvery == payEvery-1 || edge) {
 			b = w.Gen.GenBlock(t, tip, nil, 0)
 		} else {
 			b = w.Gen.NewBlock(zeroTape, tip, nil)
